@@ -276,6 +276,11 @@ def run(ctx):
             detail = f"store-before-CAS={dom}, same block={same}, links to the expected tail={linked}"
         chk.ob("C05.c", f"{bpush.path} [link before publish]", ok, "new_block.next.store(tail) dominates tail.compare_exchange(tail, new_block)" if ok else f"the new block is published before (or without) being linked to its predecessor ({detail}): a reader/clearer in the window misses or loses every older block", bpush.loc())
 
+        # tail only ever moves by compare-and-swap in push: a plain store (or swap) of a new block, on the empty bucket or on
+        # hand-over, overwrites whatever another pusher installed in between together with the completed pushes in it
+        blind = [o for o in ops if o[1] in ("store", "swap") and self_field(o[2], "tail")]
+        chk.ob("C05.c", f"{bpush.path} [tail moves by CAS only]", bool(cases) and not blind, f"{len(cases)} compare_exchange on tail, no unconditional write" if cases and not blind else f"push writes tail with an unconditional {blind[0][1] if blind else '?'}: two pushers that both saw the old tail each install a block, and the first one's block (with its values) is unlinked", blind[0][0].loc() if blind else bpush.loc(), nontrivial=False)
+
     # ---------------- C05.d
     cw = one_method(chk, "C05.d", u, BKT, "clear_with")
     if cw:
